@@ -9,6 +9,8 @@ import (
 	"os"
 	"slices"
 	"sync/atomic"
+
+	"github.com/cilium/statedb/internal/simhook"
 )
 
 // Txn is a transaction against a tree. It allows doing efficient
@@ -207,6 +209,8 @@ const watchesReuseThreshold = 64
 // mutated as part of this transaction. Must be called before
 // Tree.Txn() is used again.
 func (txn *Txn[T]) Notify() {
+	simhook.Yield("notify.begin")
+	defer simhook.Yield("notify.end")
 	for ch := range txn.watches {
 		close(ch)
 	}
